@@ -67,16 +67,13 @@ def _cells_work(chunk):
 
 
 def _order_work(chunks):
+    """Each item (order, cells) is evaluated in a process of its own (see the maxtasksperchild pool in run)."""
     out = []
-    for cells in chunks:
+    for order, cells in chunks:
         kinds = ["null", "bool", "int", "float", "str"]
-        a = sorted(cells, key=lambda c: (kinds.index(c["hay"]["t"]), c["hay"]["v"], c["op"], c["needle"]))
-        b = sorted(cells, key=lambda c: (-kinds.index(c["hay"]["t"]), c["hay"]["v"], c["op"], c["needle"]))
-        ra = {(c["op"], c["needle"], c["hay"]["t"], c["hay"]["v"]): (c, got, err) for c, got, err in judge_cells(a)}
-        for c, got, err in judge_cells(b):
-            c0, got0, err0 = ra[(c["op"], c["needle"], c["hay"]["t"], c["hay"]["v"])]
-            if (got, err) != (got0, err0):
-                out.append((c, got0 if not err0 else err0, got if not err else err))
+        sign = 1 if order == "a" else -1
+        seq = sorted(cells, key=lambda c: (sign * kinds.index(c["hay"]["t"]), c["hay"]["v"], c["op"], c["needle"]))
+        out.append((order, [((c["op"], c["needle"], c["hay"]["t"], c["hay"]["v"]), got if not err else err) for c, got, err in judge_cells(seq)]))
     return out
 
 
@@ -111,11 +108,18 @@ def run(ctx):
                               "search_matches(%s, needle=%r, haystack=%r) = %s, documented rules give %s" % (
                                   c["op"], c["needle"], c["hay"], got, c["m"]), {"kind": "cell", "cell": c})
     # ---- search_matches is a function of (operator, term, value): the specification's Matches has no state.  The whole grid is
-    # evaluated twice in ONE process, in two different orders (by value kind ascending / descending); the answers must agree.
-    for c, first, second in querycorpus.pmap(_order_work, [cells], chunk=1):
-        ctx.violation("stateful:%s:%s" % (c["op"], c["hay"]["t"]),
-                      "search_matches(%s, needle=%r, haystack=%r) answered %s in one evaluation order and %s in another (same process)" % (
-                          c["op"], c["needle"], c["hay"], first, second), {"kind": "cell", "cell": c})
+    # evaluated in two fresh processes, in two different orders (by value kind ascending / descending); the answers must agree.
+    import multiprocessing as mp
+    with mp.Pool(2, maxtasksperchild=1) as pool:
+        res = dict(r[0] for r in pool.map(_order_work, [[("a", cells)], [("b", cells)]], chunksize=1))
+    ansa, ansb = dict(res["a"]), dict(res["b"])
+    bykey = {(c["op"], c["needle"], c["hay"]["t"], c["hay"]["v"]): c for c in cells}
+    for k in ansa:
+        if ansa[k] != ansb[k]:
+            c = bykey[k]
+            ctx.violation("stateful:%s:%s" % (c["op"], c["hay"]["t"]),
+                          "search_matches(%s, needle=%r, haystack=%r) answered %s when values were met in the order null, bool, int, float, str and %s in the "
+                          "reverse order (fresh process each)" % (c["op"], c["needle"], c["hay"], ansa[k], ansb[k]), {"kind": "cell", "cell": c})
     ctx.coverage["order_independence_cells"] = 2 * len(cells)
     # ---- C->S: seeded random scalars and terms beyond the pool (Batch_Compare)
     import random
